@@ -21,7 +21,7 @@ import (
 
 type cliCase struct {
 	Alis   []gen.Ali `json:"alis"`             // several: Phylip input only
-	Repeat []int     `json:"repeat,omitempty"` // rows repeated (large files), see expand
+	Shapes []shape   `json:"shapes,omitempty"` // how each base alignment is blown up, see expand
 	In     cfg       `json:"in"`   // format and layout of the input file
 	InOpts []phyOpt  `json:"in_opts,omitempty"`
 	Auto   bool      `json:"auto"`   // --auto-detect instead of the format flag
@@ -77,9 +77,9 @@ func genCLI(t *rapid.T) cliCase {
 		if k > 1 {
 			sizes = streamSizes
 		}
-		a, rep := genSized(t, d, rapid.SampledFrom(sizes).Draw(t, "size"), x, c.Out)
+		a, sh := genSized(t, d, rapid.SampledFrom(sizes).Draw(t, "size"), x, c.Out)
 		c.Alis = append(c.Alis, a)
-		c.Repeat = append(c.Repeat, rep)
+		c.Shapes = append(c.Shapes, sh)
 	}
 	return c
 }
@@ -110,12 +110,12 @@ func checkCLI(c cliCase) (o pbt.Outcome, err error) {
 	}
 	d := domOf(c.In, c.Out)
 	for i, a := range c.Alis {
-		if !inDomain(a, d) || repAt(c.Repeat, i) > maxRepeat {
+		if !inDomain(a, d) || !shapeAt(c.Shapes, i).valid() {
 			o.Skip = true
 			return o, nil
 		}
 	}
-	if len(c.Repeat) > len(c.Alis) {
+	if len(c.Shapes) > len(c.Alis) {
 		o.Skip = true
 		return o, nil
 	}
@@ -123,13 +123,13 @@ func checkCLI(c cliCase) (o pbt.Outcome, err error) {
 	var text string
 	var want []model
 	if c.In.Format == "phylip" {
-		texts, w, e := buildTexts(c.Alis, c.Repeat, c.In.Strict, c.InOpts)
+		texts, w, e := buildTexts(c.Alis, c.Shapes, d, c.In.Strict, c.InOpts)
 		if e != nil {
 			return o, e
 		}
 		text, want = strings.Join(texts, ""), w
 	} else {
-		al, m, e := buildModel(expand(c.Alis[0], repAt(c.Repeat, 0)))
+		al, m, e := buildModel(expand(c.Alis[0], shapeAt(c.Shapes, 0), d))
 		if e != nil {
 			return o, e
 		}
@@ -282,7 +282,8 @@ func checkCLI(c cliCase) (o pbt.Outcome, err error) {
 	if len(c.InOpts) > 0 {
 		x.OneLine, x.NoBlock = c.InOpts[0].OneLine, c.InOpts[0].NoBlock
 	}
-	first := expand(c.Alis[0], repAt(c.Repeat, 0))
+	first := expand(c.Alis[0], shapeAt(c.Shapes, 0), d)
+	o.Class("shape of the first alignment: %s", shapeClass(shapeAt(c.Shapes, 0)))
 	ntIn := classify(&o, "in:", x, first)
 	ntOut := classify(&o, "out:", c.Out, first)
 	o.Class("input %s, %s", c.InVia, textClass(len(text)))
